@@ -59,6 +59,43 @@ func init() {
 				w.Step(5, w.Tx(bot, &perptypes.MsgClosePositions{Creator: bot.S(), TakeProfit: pr}))
 			}
 		}
+		// topUps: every owner adds a very small amount of collateral to each of its positions
+		// (consolidating open without new borrowing). Called right after a price move and before any
+		// bot runs: a position that is already at or under the safety factor stays there, and the
+		// message must be refused.
+		topUps := func() {
+			ctx := w.ReadCtx()
+			txs := []*chain.TxRecord{}
+			k := 0
+			for _, p := range w.App.PerpetualKeeper.GetAllMTPs(ctx) {
+				o := w.ActorByAddr(p.Address)
+				if o == nil {
+					continue
+				}
+				amt := []int64{1, 1000, p.Collateral.Int64()/500 + 1}[k%3]
+				k++
+				txs = append(txs, w.Tx(o, &perptypes.MsgOpen{Creator: o.S(), Position: p.Position, Leverage: math.LegacyZeroDec(), TradingAsset: p.TradingAsset, Collateral: chain.Coin(p.CollateralAsset, amt), TakeProfitPrice: p.TakeProfitPrice, StopLossPrice: p.StopLossPrice, PoolId: p.AmmPoolId}))
+			}
+			for _, p := range w.App.LeveragelpKeeper.GetAllPositions(ctx) {
+				o := w.ActorByAddr(p.Address)
+				if o == nil {
+					continue
+				}
+				amt := []int64{1000, p.Collateral.Amount.Int64()/500 + 1}[k%2]
+				k++
+				txs = append(txs, w.Tx(o, &lptypes.MsgOpen{Creator: o.S(), CollateralAsset: "uusdc", CollateralAmount: math.NewInt(amt), AmmPoolId: p.AmmPoolId, Leverage: math.LegacyOneDec(), StopLossPrice: p.StopLossPrice}))
+			}
+			if len(txs) > 0 {
+				b := w.Step(5, txs...)
+				for _, t := range b.Txs[1:] {
+					if t.OK() {
+						c.Ev("top_up_accepted")
+					} else {
+						c.Ev("top_up_refused")
+					}
+				}
+			}
+		}
 		botAll()
 		// stop-loss hover: a large position whose stop-loss is just reached and small ones whose
 		// stop-loss is just not reached, all named in ONE stop-loss list, the large one first (closing
@@ -107,6 +144,7 @@ func init() {
 		g.Free(seg, g.StdDt)
 		// price crash: liquidation and stop-loss levels are crossed
 		w.Prices["ATOM"] = atom().Mul(chain.Dec("0.72"))
+		topUps()
 		g.Free(3, nil)
 		botAll()
 		g.Free(seg, g.StdDt)
@@ -118,10 +156,12 @@ func init() {
 		if w.GovExec("safety", &lptypes.MsgUpdateParams{Authority: w.Gov, Params: &lpP}, &perptypes.MsgUpdateParams{Authority: w.Gov, Params: &ppP}) {
 			c.Ev("safety_factor_raised")
 		}
+		topUps()
 		botAll()
 		g.Free(seg, g.StdDt)
 		// spike: shorts get into trouble, take-profits of longs trigger; then a long quiet gap (interest)
 		w.Prices["ATOM"] = atom().Mul(chain.Dec("1.6"))
+		topUps()
 		g.Free(3, nil)
 		botAll()
 		g.Free(seg, func(i int) int64 {
